@@ -99,7 +99,7 @@ def load_corpus():
     cases = []
     d = os.path.join(VERIF, "selftest")
     for fn in sorted(os.listdir(d)):
-        if fn.endswith(".json"):
+        if fn.endswith(".json") and not fn.endswith(".known.json"):
             with open(os.path.join(d, fn)) as f:
                 for c in json.load(f):
                     cases.append(c)
